@@ -96,7 +96,14 @@ type CleanObs struct {
 }
 
 type Op struct {
-	K string `json:"k"` // "src" | "rules" | "tamper" | "touchout" | "advance" | "build"
+	// "src" | "rules" | "tamper" | "touchout" | "advance" | "build" |
+	// "newbuilder" (the long-lived Builder is replaced) |
+	// "wipe" (rm -rf out/, the sqlite file out/CACHE included) |
+	// "pkgs" (WORKSPACE.caco3 rewritten to list Pkgs; the Builder is replaced,
+	// because ReadWorkspace memoises the workspace for the Builder's lifetime)
+	K string `json:"k"`
+
+	Pkgs []string `json:"pkgs,omitempty"`
 
 	Name    string `json:"name,omitempty"`
 	Stat    *Stat  `json:"stat,omitempty"` // nil: delete
@@ -124,13 +131,37 @@ type SrcFile struct {
 }
 
 type Case struct {
-	I      int       `json:"i"`
-	Stream string    `json:"stream"`
+	I      int    `json:"i"`
+	Stream string `json:"stream"`
+	// Builder is how the history's Build calls are issued: "fresh" = a new
+	// caco3.Builder for every build (what caco3bin does: one per process),
+	// "one" = one long-lived Builder per configuration for the whole history
+	// (a daemon or a test that keeps the Builder), renewed only by a
+	// "newbuilder" operation.  Everything a Builder holds across Build calls
+	// (env.workspace, env.nodeType/ruleType, and - if the code ever kept it -
+	// the buildContext with its memo and cache handle) lives as long as that.
+	Builder string `json:"builder"`
+	// Work: the package directory the Builders are created in ("" = the
+	// workspace root): Build then reads its targets relative to it
+	// (env.workSrcPath, fixed at NewBuilder), and the harness spells them so.
+	Work string `json:"work,omitempty"`
 	Pkgs   []string  `json:"pkgs"`
 	Rules  []Rule    `json:"rules"`
 	Src    []SrcFile `json:"src"`
 	Ops    []Op      `json:"ops"`
 	Crash  string    `json:"crash,omitempty"`
+	// open file descriptors of the harness process before and after the
+	// history, and the number of Build calls in between (every Build opens a
+	// sqlite handle on out/CACHE that is never closed)
+	Fds []int `json:"fds,omitempty"`
+}
+
+func countFds() int {
+	es, err := os.ReadDir("/proc/self/fd")
+	if err != nil {
+		return -1
+	}
+	return len(es)
 }
 
 // ------------------------------------------------------------- workspace
@@ -328,16 +359,54 @@ var cacheNow = time.Unix(1700000000, 0)
 // chmodCount numbers the output chmods of a history.
 var chmodCount uint32
 
-func realBuild(root string, targets []string, always bool) (ok bool, errText string, exec []string) {
+// builders holds the long-lived Builders of a history run in the "one"
+// style: one per configuration (AlwaysRebuild is a Config field).
+type builders struct {
+	keep bool
+	work string
+	m    map[bool]*caco3.Builder
+}
+
+func (bs *builders) reset() { bs.m = map[bool]*caco3.Builder{} }
+
+func (bs *builders) get(root string, always bool) (*caco3.Builder, string) {
+	if bs != nil && bs.keep {
+		if b := bs.m[always]; b != nil {
+			return b, ""
+		}
+	}
+	workDir := root
+	if bs != nil && bs.work != "" {
+		workDir = filepath.Join(root, "src", filepath.FromSlash(bs.work))
+	}
+	b, err := caco3.NewBuilder(workDir, &caco3.Config{Root: root, AlwaysRebuild: always})
+	if err != nil {
+		return nil, "new builder: " + err.Error()
+	}
+	if _, errs := b.ReadWorkspace(); errs != nil {
+		return nil, "workspace: " + errs[0].Error()
+	}
+	if bs != nil && bs.keep {
+		bs.m[always] = b
+	}
+	return b, ""
+}
+
+// realBuild issues one Build call; bs == nil: on a Builder of its own.
+func realBuild(bs *builders, root string, targets []string, always bool) (ok bool, errText string, exec []string) {
 	logBuf.Reset()
 	exec = []string{}
 	caco3.VerifCacheClock = func() time.Time { return cacheNow }
-	b, err := caco3.NewBuilder(root, &caco3.Config{Root: root, AlwaysRebuild: always})
-	if err != nil {
-		return false, "new builder: " + err.Error(), exec
+	b, msg := bs.get(root, always)
+	if b == nil {
+		return false, msg, exec
 	}
-	if _, errs := b.ReadWorkspace(); errs != nil {
-		return false, "workspace: " + errs[0].Error(), exec
+	if bs != nil && bs.work != "" {
+		var ts []string
+		for _, t := range targets {
+			ts = append(ts, spell(bs.work, t))
+		}
+		targets = ts
 	}
 	errs := b.Build(targets)
 	for _, line := range strings.Split(logBuf.String(), "\n") {
@@ -359,14 +428,22 @@ func realBuild(root string, targets []string, always bool) (ok bool, errText str
 // out/ was written, so that a rebuilt output cannot get the mtime it had (the
 // model's hypothesis "an output write leaves a new stat"; only matters on file
 // systems with coarse timestamps).
+// newestOut is the newest modification time any output of the current
+// history ever had (outputs may have been deleted or the whole out/ removed
+// since).
+var newestOut time.Time
+
 func waitTick(root string) {
-	var newest time.Time
+	newest := newestOut
 	filepath.Walk(filepath.Join(root, "out"), func(p string, info os.FileInfo, err error) error {
 		if err == nil && !info.IsDir() && info.ModTime().After(newest) {
 			newest = info.ModTime()
 		}
 		return nil
 	})
+	if newest.After(newestOut) {
+		newestOut = newest
+	}
 	if d := time.Since(newest); d >= 0 && d < 8*time.Millisecond {
 		time.Sleep(8*time.Millisecond - d)
 	}
@@ -399,6 +476,7 @@ func entriesJSON(es []Entry) []byte {
 func runCase(c *Case, withClean bool) {
 	cacheNow = time.Unix(1700000000, 0)
 	chmodCount = 0
+	newestOut = time.Time{}
 	root, err := os.MkdirTemp(scratch, "c10-")
 	if err != nil {
 		fatal("scratch", err)
@@ -415,9 +493,30 @@ func runCase(c *Case, withClean bool) {
 	if err := writeBuildFiles(root, c.Pkgs, c.Rules); err != nil {
 		fatal("build files", err)
 	}
+	bs := &builders{keep: c.Builder == "one", work: c.Work}
+	bs.reset()
+	fd0, nb := countFds(), 0
+	defer func() { c.Fds = []int{fd0, countFds(), nb} }()
 	for i := range c.Ops {
 		op := &c.Ops[i]
+		if op.K == "build" {
+			nb++
+			if withClean {
+				nb++
+			}
+		}
 		switch op.K {
+		case "newbuilder":
+			bs.reset()
+		case "wipe":
+			if err := os.RemoveAll(filepath.Join(root, "out")); err != nil {
+				fatal("wipe", err)
+			}
+		case "pkgs":
+			if err := writeWorkspaceFile(root, op.Pkgs); err != nil {
+				fatal("workspace", err)
+			}
+			bs.reset()
 		case "src":
 			f := filepath.Join(root, "src", filepath.FromSlash(op.Name))
 			if op.Stat == nil {
@@ -478,8 +577,13 @@ func runCase(c *Case, withClean bool) {
 		case "build":
 			o := &BuildObs{}
 			waitTick(root)
-			o.Ok, o.Err, o.Exec = realBuild(root, op.Targets, op.Always)
+			o.Ok, o.Err, o.Exec = realBuild(bs, root, op.Targets, op.Always)
 			o.Outs = snapshotOut(root)
+			for _, f := range o.Outs {
+				if t := time.Unix(0, f.Mtime); t.After(newestOut) {
+					newestOut = t
+				}
+			}
 			if withClean {
 				// implementation-only oracle: a from-scratch build of a copy
 				croot, err := os.MkdirTemp(scratch, "c10-clean-")
@@ -490,7 +594,7 @@ func runCase(c *Case, withClean bool) {
 					fatal("copy", err)
 				}
 				co := &CleanObs{}
-				co.Ok, co.Err, co.Exec = realBuild(croot, op.Targets, false)
+				co.Ok, co.Err, co.Exec = realBuild(&builders{work: c.Work}, croot, op.Targets, false)
 				co.Outs = snapshotOut(croot)
 				os.RemoveAll(croot)
 				o.Clean = co
